@@ -35,13 +35,29 @@ M = [
  ('C10', 'src/nrzi.rs', '1 ^ a ^ tmp', 'a ^ tmp', 1),
  ('C08', 'src/skip.rs', '            // Fast path, once skipping is done.\n', '            // Fast path, once the skipping is done.\n', 0),   # benign: comment
  ('C02', CB, 'let newpos = (s.rpos + n) % s.capacity();', 'let newpos = (n + s.rpos) % s.capacity();', 0),                       # benign: commuted
+ # units added later
+ ('C08', 'src/zero_crossing.rs', '            self.last_sign = sign;\n            self.counter += 1;', '            self.counter += 1;', 1),
+ ('C15', 'src/zero_crossing.rs', 'std::cmp::min(o.len(), clock.len())', 'o.len()', 1),
+ ('C08', 'src/symbol_sync.rs', '                self.last_sym_boundary_pos = self.stream_pos;\n                self.last_sign = sign;', '                self.last_sign = sign;', 1),
+ ('C12', 'src/fft_filter.rs', 'Tag::new(t.pos() + base, t.key(), t.val().clone())', 'Tag::new(t.pos(), t.key(), t.val().clone())', 1),
+ ('C08', 'src/fft_filter.rs', 'self.tail[i] = self.buf[self.nsamples + i];', 'self.tail[i] = self.buf[i];', 1),
+ ('C09', 'src/au.rs', 'return Ok(BlockRet::WaitForStream(&self.dst, ss));', 'return Ok(BlockRet::WaitForStream(&self.dst, 1));', 1),
+ ('C14', 'src/au.rs', 'o.slice()[j * ss..(j + 1) * ss].clone_from_slice(&val.to_be_bytes());', 'o.slice()[j * ss..(j + 1) * ss].clone_from_slice(&val.to_le_bytes());', 1),
+ ('C16', 'src/sigmf.rs', '            if self.range.1 == 0 || !self.repeat.again() {', '            if self.range.1 == 0 || self.repeat.again() {', 1),
+ ('C14', 'src/sigmf.rs', '            self.left -= n as u64;', '            self.left -= std::cmp::min(n, 1) as u64;', 1),
+ ('C15', 'src/wpcr.rs', '.max_by(|a, b| a.partial_cmp(b).unwrap_or(std::cmp::Ordering::Equal))?', '.max_by(|a, b| a.partial_cmp(b).unwrap_or(std::cmp::Ordering::Equal)).unwrap()', 1),
+ ('C13', 'src/hdlc_deframer.rs', 'return Ok(State::Unsynced(0x7f | (bit << 7)));', 'return Ok(State::Unsynced(0xff));', 1),
+ ('C02', 'src/stream.rs', '        Arc::clone(&self.circ).read_buf()\n', '        let (b, mut t) = Arc::clone(&self.circ).read_buf()?;\n        t.dedup_by(|a, b| a.pos() == b.pos());\n        Ok((b, t))\n', 1),
+ ('C08', 'src/symbol_sync.rs', '            // Stay around zero so that we don\'t lose float precision.\n', '            // Stay near zero so that we do not lose float precision.\n', 0),   # benign
+ ('C14', 'src/sigmf.rs', '        let sample_size = T::size();\n        let have = self.buf.len() / sample_size;\n        let want = o.len();', '        let sample_size = T::size();\n        let want = o.len();\n        let have = self.buf.len() / sample_size;', 0),   # benign: independent statements swapped
 ]
 
 def one(m):
     prop, rel, old, new, want = m
     d = tempfile.mkdtemp(prefix='vxself_', dir='/tmp')
     try:
-        subprocess.run(['rsync', '-a', '--exclude', 'target', '--exclude', '.git', '/repo/', d + '/'], check=True)
+        # HEAD, not the working tree: seeds may be applied to /repo's working tree while this runs
+        subprocess.run('git -C /repo archive HEAD | tar -x -C %s' % d, shell=True, check=True)
         p = os.path.join(d, rel)
         s = open(p).read()
         if rel == 'src/file_sink.rs' and old is None:
